@@ -70,6 +70,10 @@ type RepoCache struct {
 	// the user identity's id, if known
 	muUserIdentity sync.RWMutex
 	userIdentityId entity.Id
+
+	// true once this cache has created the lock file: Close removes the lock only then, never
+	// the lock of another process that made the opening fail
+	locked bool
 }
 
 // NewRepoCache create or open a cache on top of a raw repository.
@@ -187,6 +191,8 @@ func (c *RepoCache) lock(events chan BuildEvent) error {
 		return err
 	}
 
+	c.locked = true
+
 	return f.Close()
 }
 
@@ -205,6 +211,10 @@ func (c *RepoCache) Close() error {
 		return err
 	}
 
+	if !c.locked {
+		return nil
+	}
+	c.locked = false
 	return c.repo.LocalStorage().Remove(lockfile)
 }
 
